@@ -49,7 +49,9 @@ class Parser(object):
                   tabmodule=self.tabmodule)
 
     def parse(self, input):
-        return self.yacc.parse(input)
+        # give every evaluation its own lexer state: without an explicit lexer ply falls back to the
+        # process-global one (the last lexer built), shared by all parsers, nested evaluations and threads
+        return self.yacc.parse(input, lexer=self.lex.clone())
 
     def run(self):
         while 1:
